@@ -562,12 +562,12 @@ def reach_site(case):
         if case.get("second"):
             det.update(np.array([ref[0]]))
         o, r = mk([ref[1]]); det.update(o)
-        return det, o, r, det._ref_data, True
+        return det, o, r, getattr(det, "_ref_data", None), True
     if site in ("SiteKdqBatchFirst", "SiteKdqBatchAdopted"):
         det = KdqTreeBatch(alpha=0.05, bootstrap_samples=10, count_ubound=5)
         if site == "SiteKdqBatchFirst":
             o, r = mk(ref); det.update(o)
-            return det, o, r, det._ref_data, True
+            return det, o, r, getattr(det, "_ref_data", None), True
         det.set_reference(np.array(ref))
         o, r = mk(far); det.update(o)
         return det, o, r, getattr(det, "ref_data", None), det.drift_state == "drift"
@@ -576,18 +576,20 @@ def reach_site(case):
         for i in range(5 if site == "SitePcacdTest" else 1):
             det.update(np.array([ref[i]]))
         o, r = mk([ref[7]]); det.update(o)
-        stored = det._test_window if site == "SitePcacdTest" else det._reference_window
-        return det, o, r, stored, len(stored) == (1 if site == "SitePcacdTest" else 2)
+        stored = getattr(det, "_test_window" if site == "SitePcacdTest" else "_reference_window", None)
+        return det, o, r, stored, stored is None or len(stored) == (1 if site == "SitePcacdTest" else 2)
     if site == "SiteCusumStream":
         det = CUSUM(burn_in=3)
         det.update(1.0)
         o, r = mk([[ref[1][0]]]); det.update(o)
-        return det, o, r, det._stream[-1], True
+        st_ = getattr(det, "_stream", None)
+        return det, o, r, (st_[-1] if st_ else None), True
     if site == "SitePhScores":
         det = PageHinkley(burn_in=3)
         det.update(1.0)
         o, r = mk([[ref[1][0]]]); det.update(o)
-        return det, o, r, det._change_scores[-1], True
+        cs_ = getattr(det, "_change_scores", None)
+        return det, o, r, (cs_[-1] if cs_ else None), True
     if site.startswith("SiteMd3"):
         det = MD3(clf=ThresholdSVM(), sensitivity=0.0, k=4, oracle_data_length_required=5)
         cols = ["a", "b", "y"]
@@ -619,7 +621,7 @@ def reach_site(case):
             return ens, o, r, [ens.detectors["nndvi"].reference_batch, ens.detectors["hdddm"].reference,
                                getattr(ens.detectors["kdq"], "ref_data", None)], ens.detectors["nndvi"].drift_state == "drift"
         o, r = mk([ref[0]], one_d=False); ens.update(o, None, None)
-        return ens, o, r, [ens.detectors["kdq"]._ref_data, ens.detectors["pca"]._reference_window], True
+        return ens, o, r, [getattr(ens.detectors["kdq"], "_ref_data", None), getattr(ens.detectors["pca"], "_reference_window", None)], True
     raise ValueError(site)
 
 
@@ -634,8 +636,10 @@ def run_alias(case):
     allroots = [o] + list(roots)
     stored_list = stored if isinstance(stored, list) and case["site"].startswith("Ens") else [stored]
     sh = [bool(s is o or shares(allroots, s)) if s is not None else False for s in stored_list]
+    # "located": the stored object was found under its (private, optional) attribute name; when it was not, the verdict
+    # rests on the name-independent deep scan of the detector alone and the site is not model-checked
     return {"reached": bool(reached), "shares": sh, "same_object": [bool(s is o) for s in stored_list],
-            "scan": scan(det, allroots)[:6]}
+            "located": [s is not None for s in stored_list], "scan": scan(det, allroots)[:6]}
 
 
 # =============================================================================== library facts
@@ -857,7 +861,7 @@ def coq_term(case, obs):
     if t == "fact":
         return f"chk_fact current {case['fact']} {KIND[case['container']]} {G.boolc(obs['shares'])}"
     if t == "alias":
-        if not obs.get("reached"):
+        if not obs.get("reached") or not all(obs.get("located", [True])):
             return None
         sites = ENS_SITES.get(case["site"], [case["site"]])
         k = KIND[case["container"]]
